@@ -5,6 +5,7 @@ cd "$(dirname "$0")/../harness"
 export GOFLAGS=-mod=mod GOPROXY=off GOSUMDB=off GOTOOLCHAIN=auto
 cp /repo/go.sum go.sum
 go vet -tags "verif unit" ./... >/dev/null 2>&1 || true
-go test -tags "verif unit" -count=1 -run '^$' ./... >/dev/null
+# pre-compile every check package (a package that does not build is reported, not fatal: its check will say so itself)
+for d in c*/; do go test -tags "verif unit" -count=1 -run '^$' "./$d" >/dev/null 2>&1 || echo "warning: harness/$d does not build"; done
 java -cp /opt/veriftools/tla/tla2tools.jar tlc2.TLC -h >/dev/null 2>&1 || true
 echo setup ok
